@@ -13,6 +13,16 @@ pg.Dict / pg.List / pg.Object, equal-but-distinct sub-values, and DAGs: the very
 same container object (plain or symbolic) sitting at several places.  Cycles
 are excluded (a traversal of them cannot terminate).  Path-keyed dicts are
 mappings: canonicalize is checked on permuted and on partially flattened forms.
+
+Node values: a node is addressed by its path whatever value it holds.  Besides
+ordinary leaves the values carry leaves that an implementation might confuse
+with "nothing there" or might compare instead of locate: the pg.MISSING_VALUE
+placeholder (in plain containers, and as the unbound fields of partial
+pg.Object / pg.Dict values), the tuple (pg.MISSING_VALUE,), falsy leaves
+(0, False, '', (), 0.0), NaN, exception classes / instances, and objects whose
+== answers always-True, always-False or with a non-bool (numpy style).  All
+lookup entry points (query / get with any default / exists / sym_has / sym_get)
+must agree on every node and on every absent key.
 """
 import itertools
 import re
@@ -398,15 +408,65 @@ class _ModelPg:
 
 def _pre(expr):
   """Witness prelude for a value expression."""
-  return PRE + (SUBPRE if 'My' in expr or 'collections.' in expr else '')
+  return PRE + (SUBPRE if 'My' in expr or 'collections.' in expr else '') + ''.join(SPEC_SRC[n] for n in dict.fromkeys(_SPEC_NAMES.findall(expr)))
 
 
 class _ModelCollections:
   OrderedDict = staticmethod(dict)
 
 
+# Leaves with unusual comparison behaviour (shared by the real values and the model),
+# and partially bound values: their unbound fields are nodes holding the MISSING_VALUE placeholder.
+SPEC_SRC = {
+    'EqAll': "class EqAll:      # == to everything\n  __eq__ = lambda s, o: True\n  __ne__ = lambda s, o: False\n  __hash__ = lambda s: 1\n  __repr__ = lambda s: 'EqAll()'\n",
+    'EqNone': "class EqNone:      # == to nothing, not even to itself\n  __eq__ = lambda s, o: False\n  __ne__ = lambda s, o: True\n  __hash__ = lambda s: 2\n  __repr__ = lambda s: 'EqNone()'\n",
+    'EqArr': "class EqArr:      # numpy style: == gives a non-bool whose truth value is refused\n  __eq__ = __ne__ = lambda s, o: EqArr()\n  __hash__ = lambda s: 3\n  __repr__ = lambda s: 'EqArr()'\n"
+             "  def __bool__(self): raise ValueError('ambiguous truth value')\n",
+    'B': "@pg.members([('p', pg.typing.Any()), ('q', pg.typing.Int())])\nclass B(pg.Object):\n  pass\n",
+    'PD': "PD = lambda **kw: pg.Dict.partial(kw, value_spec=pg.typing.Dict([('a', pg.typing.Int()), ('b', pg.typing.Dict([('c', pg.typing.Any())]))]))\n",
+}
+exec(SPEC_SRC['EqAll'] + SPEC_SRC['EqNone'] + SPEC_SRC['EqArr'], globals())  # pylint: disable=exec-used
+SPECPRE = ''.join(SPEC_SRC.values())
+_SPEC_NAMES = re.compile(r'\b(B|PD|EqAll|EqNone|EqArr)\b')
+
+
+class _Unbound:
+  def __repr__(self):
+    return 'UNBOUND'
+
+
+_UNBOUND = _Unbound()      # model of the placeholder in an unbound field.
+_ModelPg.MISSING_VALUE = pg.MISSING_VALUE
+
+
+class _MObjB(_MObj):
+  def __init__(self, *args, **kw):    # pylint: disable=super-init-not-called
+    vals = dict(zip(('p', 'q'), args))
+    vals.update(kw)
+    self.fields = [(n, vals.get(n, _UNBOUND)) for n in ('p', 'q')]
+
+  @classmethod
+  def partial(cls, *args, **kw):
+    return cls(*args, **kw)
+
+
+def _model_pd(**kw):
+  b = dict(kw.get('b', {}))
+  b.setdefault('c', _UNBOUND)
+  return {'a': kw.get('a', _UNBOUND), 'b': b}
+
+
+def _real_ns():
+  """Namespace in which value expressions evaluate to the real values."""
+  ns = {'__name__': 'c10ns'}
+  exec(PRE + SUBPRE + SPECPRE, ns)  # pylint: disable=exec-used
+  ns.update(EqAll=EqAll, EqNone=EqNone, EqArr=EqArr)    # the very classes the model uses.  # pylint: disable=undefined-variable
+  return ns
+
+
 def _model_eval(expr):
-  return eval(expr, {'pg': _ModelPg, 'A': _MObj, 'collections': _ModelCollections, 'MyD': dict, 'MyL': list})  # pylint: disable=eval-used
+  return eval(expr, {'pg': _ModelPg, 'A': _MObj, 'B': _MObjB, 'PD': _model_pd, 'collections': _ModelCollections, 'MyD': dict, 'MyL': list,  # pylint: disable=eval-used
+                     'EqAll': EqAll, 'EqNone': EqNone, 'EqArr': EqArr})  # pylint: disable=undefined-variable
 
 
 def _mchildren(v, enter_objects=True):
@@ -444,7 +504,40 @@ def _same_node(real, model):
     return isinstance(real, list) and len(real) == len(model)
   if isinstance(model, _MObj):
     return isinstance(real, pg.Object)
-  return type(real) is type(model) and real == model
+  return _leaf_same(real, model)
+
+
+_EQ_TYPES = (int, str, bool, type(None), tuple)
+
+
+def _leaf_same(a, b):
+  """Leaf a is the leaf b (of the model, or of a second evaluation of the same source)."""
+  if b is _UNBOUND:       # the placeholder of an unbound field.
+    return isinstance(a, pg.utils.MissingValue) and not isinstance(a, (dict, list))
+  ta = type(a)
+  if ta is not type(b):
+    return False
+  if ta in _EQ_TYPES:
+    return a == b
+  return repr(a) == repr(b)      # NaN, objects with an unusual ==, exceptions ...
+
+
+def _leaf_class(m):
+  """Input class of a node by the value it holds, for the values that need one (else None)."""
+  if m is _UNBOUND or m is pg.MISSING_VALUE:
+    return 'leaf-missing-value'
+  t = type(m)
+  if t in (EqAll, EqNone, EqArr):  # pylint: disable=undefined-variable
+    return {EqAll: 'leaf-eq-always-true', EqNone: 'leaf-eq-always-false', EqArr: 'leaf-eq-non-bool'}[t]  # pylint: disable=undefined-variable
+  if t is float:
+    return 'leaf-nan' if m != m else ('leaf-falsy' if not m else None)
+  if t is tuple:
+    return 'leaf-falsy' if not m else ('leaf-missing-value-tuple' if m[0] is pg.MISSING_VALUE else None)
+  if t in (int, bool, str):
+    return None if m else 'leaf-falsy'
+  if t is type or isinstance(m, BaseException):
+    return 'leaf-exception'
+  return None
 
 
 DKEYS = ['a', 'b', 'x.y', '0', '[0]', '$', 'é', '-1', 'a[0].b', '.']
@@ -515,7 +608,46 @@ def _value_exprs(tier, seed, nrand):
     out.append((e, 'plain-subclass'))
     out.append((f'pg.Dict(r={e})', 'sym'))
   out.extend(_shared_exprs(r, nrand // 3))
+  out.extend(_special_exprs())
   return list(dict.fromkeys(out))
+
+
+# Nodes are addressed whatever value they hold.  (leaf source, flavour, where it may stand:
+# 'plain' = below plain containers only (pg.Dict / pg.List treat the value specially
+# on construction, which is not path addressing), 'direct' = also directly as a
+# pg.Dict value / object field, 'any' = anywhere.)
+SPECIAL_LEAVES = [('pg.MISSING_VALUE', 'leaf-missing-value', 'plain'), ('(pg.MISSING_VALUE,)', 'leaf-missing-value-tuple', 'any'),
+                  ('0', 'leaf-falsy', 'any'), ('False', 'leaf-falsy', 'any'), ("''", 'leaf-falsy', 'any'), ('()', 'leaf-falsy', 'any'), ('0.0', 'leaf-falsy', 'any'),
+                  ("float('nan')", 'leaf-nan', 'any'), ('EqAll()', 'leaf-eq-always-true', 'direct'), ('EqNone()', 'leaf-eq-always-false', 'any'),
+                  ('EqArr()', 'leaf-eq-non-bool', 'direct'), ('KeyError', 'leaf-exception', 'any'), ("KeyError('k')", 'leaf-exception', 'any')]
+SPECIAL_PLAIN_CTX = ["{{'a': {L}}}", '[{L}]', '[1, {L}]', "{{'a': {L}, 'b': 1}}", "{{'b': 'va', 'a': {L}}}", "{{'a': [{L}, {{'b': {L}}}]}}", "{{'a': {{'b': {L}}}}}", '[[{L}], {L}]',
+                     "{{0: {L}, 'x.y': [{L}]}}"]
+SPECIAL_DIRECT_CTX = ["pg.Dict({{'a': {L}}})", "pg.Dict({{'a': {L}, 'b': 1}})", 'A({L})', 'A(1, {L})', 'B({L}, 1)', 'B.partial({L})', "[A({L}), {{'k': pg.Dict({{'a': {L}}})}}]"]
+SPECIAL_ANY_CTX = ['pg.List([{L}])', 'pg.List([1, {L}])', "pg.Dict({{'a': [{L}, {{'b': {L}}}]}})", 'A([{L}])', "pg.Dict({{'r': A({L}, {{'k': {L}}})}})", "pg.List([[{L}], {L}])"]
+# Partially bound objects / dicts, at the root and below every kind of container.
+PARTIALS = ['B.partial()', 'B.partial(1)', 'B.partial(q=2)', "B.partial(p=[1, {'k': 'va'}])", 'B.partial(p=B.partial())', 'B.partial(p=[B.partial(q=1)])', 'B(B.partial(), 3)',
+            'PD()', 'PD(a=1)', "PD(b={'c': [1]})", 'B.partial(PD())']
+PARTIAL_CTX = ['{P}', "{{'a': {P}}}", '[1, {P}]', "pg.Dict({{'a': {P}, 'b': 1}})", 'pg.List([{P}, 1])', 'A({P})', "A(1, [{P}])", "{{'a': [{P}, {{'x.y': {P}}}]}}",
+               '[(s := {P}), s]', "pg.Dict({{'a': (s := {P}), 'b': [s]}})"]
+
+
+def _special_exprs():
+  out = []
+  for leaf, flavour, where in SPECIAL_LEAVES:
+    ctxs = SPECIAL_PLAIN_CTX + (SPECIAL_DIRECT_CTX if where in ('direct', 'any') else []) + (SPECIAL_ANY_CTX if where == 'any' else [])
+    for ctx in ctxs:
+      out.append((ctx.format(L=leaf), flavour))
+  for part in PARTIALS:
+    for ctx in PARTIAL_CTX:
+      if 'PD(' in part and ctx == 'A({P})':
+        continue        # (a field that does not accept partial dicts: construction, not addressing.)
+      out.append((ctx.format(P=part), 'partial-dict' if 'PD(' in part else 'partial-obj'))
+  return out
+
+
+# Flavours of values without symbolic parts (by construction of the expression).
+def _is_plain_expr(expr):
+  return not re.search(r'pg\.(Dict|List)|\b(A|B|PD)\b', expr)
 
 
 # Values in which the very same container object sits at several places (a DAG,
@@ -644,16 +776,22 @@ def drv_query(tier, seed):
                  scope=f'{len(vals)} nested values (plain / symbolic / objects / dict+list subclasses / shared sub-objects; dict keys from {len(DKEYS)} tricky strings and ints); '
                        f'every node path + {len(PROBES)} probe keys below every node')
   chk = _Chk(rec)
-  ns = {'__name__': 'c10ns'}
-  exec(PRE + SUBPRE, ns)  # pylint: disable=exec-used
-  def one(expr, flavour):
+  ns = _real_ns()
+  special = set(f for _, f, _ in SPECIAL_LEAVES) | {'partial-obj', 'partial-dict'}
+  eq_all = EqAll()  # pylint: disable=undefined-variable
+  # defaults an implementation might use as its own "not found" marker, or compare with ==.
+  dflts = [('missing-value', pg.MISSING_VALUE, 'pg.MISSING_VALUE'), ('none', None, 'None'), ('eq-always-true', eq_all, 'EqAll()'),
+           ('false', False, 'False'), ('key-error', KeyError, 'KeyError')]
+  def one(expr, flavour, full):
     root = eval(expr, dict(ns))  # pylint: disable=eval-used
     model = _model_eval(expr)
+    sym_root = isinstance(root, pg.Symbolic)
     for path, mnode, _ in _mwalk(model):
       node = _lookup(root, path)
       lp = list(path)
       p = KP(lp)
-      cls = _seqclass(path)
+      # (a node that holds an unusual value is classified by that value: the keys to it are ordinary.)
+      cls = (_leaf_class(mnode) if flavour in special else None) or _seqclass(path)
       w0 = _pre(expr) + f'root = {expr}\np = pg.KeyPath({lp!r})\n'
       g = _out(p.query, root)
       chk(f'query.node/{cls}', (expr, path), g[0] == 'ok' and g[1] is node and _same_node(node, mnode), lambda: f'query -> {g}',
@@ -663,18 +801,32 @@ def drv_query(tier, seed):
           lambda: w0 + 'pg.KeyPath.parse(str(p)).query(root)')
       chk(f'exists.node/{cls}', (expr, path), _out(p.exists, root) == ('ok', True), 'exists -> not True', lambda: w0 + 'assert p.exists(root) is True')
       g = _out(p.get, root, _SENTINEL)
-      chk(f'get.node/{cls}', (expr, path), g[0] == 'ok' and g[1] is node, lambda: f'get -> {g}', lambda: w0 + 'assert p.get(root, "dflt") is not "dflt"')
+      okg = chk(f'get.node/{cls}', (expr, path), g[0] == 'ok' and g[1] is node, lambda: f'get -> {g}', lambda: w0 + 'assert p.get(root, "dflt") is not "dflt"')
+      # whatever the default is (also one that equals the node): a node that is there is returned itself.
+      if okg and full:
+        dd = dflts + ([('equal-to-the-node', type(node)(node), 'type(p.query(root))(p.query(root))')] if type(node) in (list, dict) else [])
+        for dn, dv, dsrc in dd:
+          g = _out(p.get, root, dv) if dn != 'none' else _out(p.get, root)
+          chk(f'get.node.default={dn}/{cls}', (expr, path), g[0] == 'ok' and g[1] is node, lambda: f'get(root, {dsrc}) -> {g}, want the node {node!r}',
+              lambda: _pre(expr + dsrc) + f'root = {expr}\np = pg.KeyPath({lp!r})\nassert p.get(root, {dsrc}) is p.query(root)')
+      # the symbolic root offers the same lookups as methods.
+      if sym_root:
+        g1, g2, g3, g4 = _out(root.sym_has, p), _out(root.sym_get, p), _out(root.sym_get, str(p), pg.MISSING_VALUE), _out(root.sym_has, str(p))
+        chk(f'sym_has-sym_get.node/{cls}', (expr, path), g1 == ('ok', True) and g4 == ('ok', True) and g2[0] == 'ok' and g2[1] is node and g3[0] == 'ok' and g3[1] is node,
+            lambda: f'sym_has -> {g1}, sym_has(str) -> {g4}, sym_get -> {g2}, sym_get(str, MISSING_VALUE) -> {g3}; want True / the node {node!r}',
+            lambda: w0 + 'assert root.sym_has(p) and root.sym_has(str(p)) and root.sym_get(p) is p.query(root) and root.sym_get(str(p), pg.MISSING_VALUE) is p.query(root)')
       # probes below this node.
       kind = _node_kind(node)
       ch = _mchildren(mnode)
-      for k in (PROBES if not flavour.startswith('shared') else PROBES_FEW):
+      # (absent keys below ordinary nodes are covered by the ordinary values.)
+      for k in (PROBES if not (flavour.startswith('shared') or flavour in special) else PROBES_FEW if flavour not in special or _leaf_class(mnode) else ('zz', 7)):
         present = None
         if ch is not None and isinstance(mnode, dict):
           present = any(_tk([k]) == _tk([c]) for c, _ in ch)
         elif ch is not None and isinstance(mnode, list):
           present = isinstance(k, int) and -len(mnode) <= k < len(mnode)
         elif ch is not None:
-          present = k in ('x', 'y')
+          present = any(k == c for c, _ in ch)
         else:
           if isinstance(k, int) and isinstance(mnode, (str, tuple)):
             continue # indexing into a str/tuple leaf: not specified.
@@ -695,10 +847,22 @@ def drv_query(tier, seed):
             g1 == ('ok', False) and g2[0] == 'ok' and g2[1] is _SENTINEL and g3 == ('exc', 'KeyError'),
             lambda: f'exists -> {g1}; get(default) -> {g2 if g2[0] == "exc" else ("default" if g2[1] is _SENTINEL else g2[1])}; query -> {g3 if g3[0] == "exc" else ("ok", g3[1])} (want False / default / KeyError)',
             lambda: w + 'assert p.exists(root) is False\nassert p.get(root, "dflt") == "dflt"\ntry:\n  p.query(root)\n  raise AssertionError("no KeyError")\nexcept KeyError:\n  pass')
+        if k in ('zz', 7):
+          # an absent address yields the very default, whatever the default is.
+          for dn, dv, dsrc in (dflts if full and k == 'zz' else ()):
+            g = _out(q.get, root, dv) if dn != 'none' else _out(q.get, root)
+            chk(f'get.absent.default={dn}/{kind}', (expr, path, k), g[0] == 'ok' and g[1] is dv, lambda: f'get(root, {dsrc}) -> {g}, want the default',
+                lambda: _pre(expr + dsrc) + f'root = {expr}\np = pg.KeyPath({lp + [k]!r})\nd = {dsrc}\nassert p.get(root, d) is d')
+          if sym_root and (full or k == 'zz'):
+            g1, g2, g3 = _out(root.sym_has, q), _out(root.sym_get, q, _SENTINEL), _out(root.sym_get, q)
+            chk(f'sym_has-sym_get.absent/{kind}/{kc}', (expr, path, k), g1 == ('ok', False) and g2[0] == 'ok' and g2[1] is _SENTINEL and g3 == ('exc', 'KeyError'),
+                lambda: f'sym_has -> {g1}; sym_get(default) -> {g2 if g2[0] == "exc" else ("default" if g2[1] is _SENTINEL else g2[1])}; sym_get -> {g3} (want False / default / KeyError)',
+                lambda: w + 'assert root.sym_has(p) is False\nassert root.sym_get(p, "dflt") == "dflt"\ntry:\n  root.sym_get(p)\n  raise AssertionError("no KeyError")\nexcept KeyError:\n  pass')
 
-  for expr, flavour in vals:
+  for vi, (expr, flavour) in enumerate(vals):
     try:
-      one(expr, flavour)
+      # (the default kinds: on every value with unusual leaves, on every third of the others.)
+      one(expr, flavour, flavour in special or vi % 3 == 0)
     except Exception as e:  # pylint: disable=broad-except
       rec.case('unexpected-exception', expr, False, f'{type(e).__name__}: {e}', _pre(expr) + f'root = {expr}\nraise AssertionError({str(e)!r})')
 
@@ -725,8 +889,7 @@ def drv_traverse(tier, seed):
                  scope=f'{len(vals)} nested values (trees and DAGs with the same container at several places); every node as STOP / CONTINUE point, '
                        'as path_regex and as where-parent of pg.query for values with <= 12 nodes; pg.contains, nested traversal, utils.transform(identity)')
   chk = _Chk(rec)
-  ns = {'__name__': 'c10ns'}
-  exec(PRE + SUBPRE, ns)  # pylint: disable=exec-used
+  ns = _real_ns()
   ENTER, STOP, CONT = pg.TraverseAction.ENTER, pg.TraverseAction.STOP, pg.TraverseAction.CONTINUE
   wtrav = ('log = []\nret = pg.traverse(root, lambda k, v, p: (log.append(k.keys), pg.TraverseAction.ENTER)[1])\n')
   def one(expr, flavour):
@@ -856,8 +1019,9 @@ def drv_traverse(tier, seed):
           lambda: w0 + f'res = pg.query(root, custom_selector=lambda k, v: not isinstance(v, (dict, list, pg.Object)) or (not isinstance(v, pg.Object) and len(v) == 0))\nassert list(res) == {[str(KP(list(p))) for p, _ in mleaves]!r}')
     # --- pg.contains: every leaf value is found, an absent value is not.
     lv = list(dict.fromkeys(v for _, v in mleaves if type(v) in (int, str)))
-    g = [_out(pg.contains, root, x) for x in lv] + [_out(pg.contains, root, 'no such leaf'), _out(pg.contains, root, -12345)]
-    chk(f'pg.contains.finds-exactly-the-present-leaves/{flavour}', key, g == [('ok', True)] * len(lv) + [('ok', False)] * 2, lambda: f'{lv} + 2 absent -> {g}',
+    # (pg.contains compares with ==: a value with leaves that are == to everything / refuse a truth value is out of its scope.)
+    g = [_out(pg.contains, root, x) for x in lv] + [_out(pg.contains, root, 'no such leaf'), _out(pg.contains, root, -12345)] if flavour not in ('leaf-eq-always-true', 'leaf-eq-non-bool') else None
+    chk(f'pg.contains.finds-exactly-the-present-leaves/{flavour}', key, g is None or g == [('ok', True)] * len(lv) + [('ok', False)] * 2, lambda: f'{lv} + 2 absent -> {g}',
         lambda: w0 + f'assert all(pg.contains(root, x) for x in {lv!r}) and not pg.contains(root, "no such leaf")')
     # --- a traversal started from inside a visitor does not disturb the outer one
     # (and is not disturbed by it).
@@ -883,7 +1047,7 @@ def drv_traverse(tier, seed):
     g = _out(pg.utils.traverse, root, lambda k, v: (a.append((k, v)), True)[1], lambda k, v: (b.append((k, v)), True)[1])
     oku = (g == ('ok', True) and [_tk(k.keys) for k, _ in a] == [_tk(p) for p, _, _ in upre]
            and [_tk(k.keys) for k, _ in b] == [_tk(p) for p, _ in upost])
-    if oku and flavour in ('plain', 'plain-int-keys', 'plain-subclass', 'shared-plain'):
+    if oku and (flavour in ('plain', 'plain-int-keys', 'plain-subclass', 'shared-plain') or _is_plain_expr(expr)):
       oku = all(v is _lookup(root, p) for (k, v), (p, _, _) in zip(a, upre))
     chk(f'utils.traverse.visits/{flavour}', key, oku, lambda: f'{g}; pre {[k.keys for k, _ in a]}, want {[list(p) for p, _, _ in upre]}',
         lambda: w0 + 'log = []\nassert pg.utils.traverse(root, lambda k, v: (log.append(k.keys), True)[1])\n' + f'assert log == {[list(p) for p, _, _ in upre]!r}')
@@ -899,7 +1063,8 @@ def drv_traverse(tier, seed):
         chk(f'utils.traverse.stop-in-postorder/{flavour}', (expr, mp), g == ('ok', False) and seen == [_tk(p) for p, _ in upost[:idx + 1]],
             lambda: f'{g} {seen}', lambda: w0 + f'log = []\nret = pg.utils.traverse(root, None, lambda k, v: (log.append(k.keys), k.keys != {list(mp)!r})[1])\nassert ret is False and len(log) == {idx + 1}')
     # --- utils.transform with the identity function: every node once, bottom-up, with its path.
-    if flavour in ('plain', 'plain-int-keys', 'plain-subclass', 'shared-plain'):
+    # (a fn that returns pg.MISSING_VALUE asks utils.transform to delete the key: no identity there.)
+    if flavour in ('plain', 'plain-int-keys', 'plain-subclass', 'shared-plain') or (flavour.startswith('leaf-') and flavour != 'leaf-missing-value' and _is_plain_expr(expr)):
       tl = []
       g = _out(pg.utils.transform, root, lambda k, v: (tl.append(_tk(k.keys)), v)[1], None, False)
       chk(f'utils.transform.identity-visits/{flavour}', key, g[0] == 'ok' and tl == [_tk(p) for p, _ in upost] and _deep_same(g[1], model),
@@ -1021,6 +1186,14 @@ def _flat_values(tier, seed):
   return list(dict.fromkeys(out))
 
 
+def _flat_special():
+  """(expr, flavour): leaves are carried, never interpreted or compared: unusual leaf values."""
+  return [(ctx.format(L=leaf), fl) for leaf, fl, _ in SPECIAL_LEAVES if leaf not in FLEAVES for ctx in FLAT_SPECIAL_CTX]
+
+
+FLAT_SPECIAL_CTX = ["{{'a': {L}}}", '[{L}]', "{{'a': [{L}, {{'b': {L}}}], 'x.y': {L}}}", "[[{L}], {{'0': {L}}}]", "{{'a': {{'b': {L}, 'c': 1}}}}", '[1, {L}, []]', "{{'b': 1, 'a': {L}, 'c': [{L}, {L}]}}"]
+
+
 def _deep_same(a, b):
   """Structural equality that distinguishes list/dict/tuple and key types and order-insensitive dicts."""
   if isinstance(a, dict) or isinstance(b, dict):
@@ -1028,7 +1201,7 @@ def _deep_same(a, b):
             and all(_deep_same(a[k], b[k]) for k in a))
   if isinstance(a, list) or isinstance(b, list):
     return isinstance(a, list) and isinstance(b, list) and len(a) == len(b) and all(_deep_same(x, y) for x, y in zip(a, b))
-  return type(a) is type(b) and a == b
+  return _leaf_same(a, b)
 
 
 def _has_complex_key(v):
@@ -1093,12 +1266,13 @@ def drv_flatten(tier, seed):
   rec = Recorder('C10', 'utils.flatten / utils.canonicalize are inverse; flatten keys are the leaf paths',
                  scope=f'{len(vals)} nested dict/list values: exhaustive depth<=1 over {len(FKEYS)} keys x {len(FLEAVES)} leaves, chains to depth 3, seeded random depth<=5; '
                        'int-keyed dicts, lists up to 21 elements, shared sub-containers, dict/list subclasses; flat forms permuted (all orders for <= 3 entries, '
-                       'else reversed / interleaved / seeded shuffles) and partially flattened by seeded coins')
+                       'else reversed / interleaved / seeded shuffles) and partially flattened by seeded coins; '
+                       f'{len(_flat_special())} values with unusual leaves (MISSING_VALUE placeholder, NaN, exceptions, objects with an unusual ==)')
   chk = _Chk(rec)
   rp = rng(seed, 'c10-flat-perm')
   counter = [0]
 
-  fns = {}
+  fns = {'pg': pg, 'EqAll': EqAll, 'EqNone': EqNone, 'EqArr': EqArr}  # pylint: disable=undefined-variable
   exec(SUBPRE, fns)  # pylint: disable=exec-used
 
   def one(expr):
@@ -1187,6 +1361,43 @@ def drv_flatten(tier, seed):
     # flatten does not modify its argument.
     chk(f'flatten.argument-unchanged/{cls}', expr, _deep_same(v, eval(expr, dict(fns))), 'flatten/canonicalize modified the input',  # pylint: disable=eval-used
         lambda: w0 + f'pg.utils.flatten(v, False); assert v == {expr}')
+
+  def one_special(expr, cls):
+    """Values with unusual leaves: the same laws, stated without comparing leaves by ==."""
+    v = eval(expr, dict(fns))  # pylint: disable=eval-used
+    w0 = 'import pyglove as pg\n' + ''.join(SPEC_SRC[n] for n in dict.fromkeys(_SPEC_NAMES.findall(expr))) + f'v = {expr}\n'
+    leaves = [(p, n) for p, n, _ in _mwalk(v) if p and not _mchildren(n)]
+    keys = [str(KP(list(p))) for p, _ in leaves]
+    g = _out(pg.utils.flatten, v, False)
+    okf = g[0] == 'ok' and isinstance(g[1], dict) and list(g[1].keys()) == keys and all(x is n or _deep_same(x, n) for x, (_, n) in zip(g[1].values(), leaves))
+    chk(f'flatten.keys-are-leaf-paths/{cls}', expr, okf, lambda: f'{g}, want keys {keys}',
+        lambda: w0 + f'flat = pg.utils.flatten(v, False)\nassert list(flat) == {keys!r}\nassert all(pg.KeyPath.parse(k).query(v) is x for k, x in flat.items())')
+    if not okf:
+      return
+    okk = all(_out(KP.parse(k).query, v) == ('ok', x) if type(x) in (list, dict) else _out(KP.parse(k).query, v)[1] is x for k, x in g[1].items())
+    chk(f'flatten.key-looks-up-leaf/{cls}', expr, okk, 'a flattened key does not address its value',
+        lambda: w0 + 'assert all(pg.KeyPath.parse(k).query(v) is x for k, x in pg.utils.flatten(v, False).items() if x not in ([], {}))')
+    # (in a path-keyed form pg.MISSING_VALUE is the documented request to delete the key: no inverse to expect for it.)
+    if cls != 'leaf-missing-value':
+      forms = [('flat', g[1])]
+      items = list(g[1].items())
+      if len(items) >= 2:
+        forms.append(('flat-reversed', dict(items[::-1])))
+        forms.append(('partially-flattened', _partial_form(v, rp, True)))
+      for nm, form in forms:
+        for flag in (True, False):
+          c = _out(pg.utils.canonicalize, form, flag)
+          chk(f'canonicalize-inverts-flatten/{cls}', (expr, nm, flag), c[0] == 'ok' and _deep_same(c[1], v), lambda: f'canonicalize({form!r}, {flag}) -> {c}, want {v!r}',
+              lambda: w0 + ('import math\n' if cls == 'leaf-nan' else '') + 'nan = float("nan")\n' * (cls == 'leaf-nan') + f'form = {form!r}\nassert repr(pg.utils.canonicalize(form, {flag})) == repr(v)')
+    chk(f'flatten.argument-unchanged/{cls}', expr, _deep_same(v, eval(expr, dict(fns))), 'flatten/canonicalize modified the input',  # pylint: disable=eval-used
+        lambda: w0 + f'pg.utils.flatten(v, False); assert repr(v) == repr({expr})')
+
+  for expr, fl in _flat_special():
+    try:
+      one_special(expr, fl)
+    except Exception as e:  # pylint: disable=broad-except
+      rec.case(f'unexpected-exception/{fl}', expr, False, f'{type(e).__name__}: {e}', 'import pyglove as pg\n' + ''.join(SPEC_SRC[n] for n in dict.fromkeys(_SPEC_NAMES.findall(expr)))
+               + f'v = {expr}\nassert repr(pg.utils.canonicalize(pg.utils.flatten(v, False))) == repr(v)')
 
   for expr in vals:
     try:
